@@ -282,6 +282,10 @@ func poolCase(r *mon.Run, i int, rnd *rand.Rand, rig *logRig, h *head, H []byte,
 	default:
 		name, S = continuation(rnd, rnd.Intn(nContinuations))
 	}
+	if len(h.magicConts) > 0 && rnd.Intn(3) != 0 {
+		S = h.magicConts[rnd.Intn(len(h.magicConts))]
+		name = "magic"
+	}
 	B := append(append([]byte{}, H...), S...)
 	plB := genPlan(rnd, len(H))
 	plB.Buf = 4096
@@ -319,4 +323,48 @@ func poolCase(r *mon.Run, i int, rnd *rand.Rand, rig *logRig, h *head, H []byte,
 		r.Event("complete_heads_rejected", 1)
 	}
 	return fmt.Sprintf("%s/%s/handler=%d", pdesc, name, min(len(fresh.Handler), 3))
+}
+
+// serverDifferential serves H followed by different continuations on fresh
+// Servers and compares how the FIRST request is answered (handler call with its
+// fields, or the first status line).
+func serverDifferential(r *mon.Run, i int, rnd *rand.Rand, h *head, H []byte, base map[string]any) {
+	first := func(l serveLog) string {
+		hd, st := "-", "-"
+		if len(l.Handler) > 0 {
+			hd = l.Handler[0]
+		}
+		if len(l.Statuses) > 0 {
+			st = l.Statuses[0]
+		}
+		return st + " | " + hd
+	}
+	pl := genPlan(rnd, len(H))
+	pl.Buf = 4096
+	ref := newLogRig().serve(H, pl, false)
+	if ref.Panic != "" || ref.Loop {
+		return
+	}
+	perm := rnd.Perm(nContinuations - 1)
+	mperm := rnd.Perm(max(len(h.magicConts), 1))
+	for k := 0; k < 3; k++ {
+		name, S := continuation(rnd, perm[k]+1)
+		if len(h.magicConts) > 0 {
+			S, name = h.magicConts[mperm[k%len(mperm)]], "magic"
+		}
+		in := append(append([]byte{}, H...), S...)
+		pl2 := genPlan(rnd, len(H))
+		pl2.Buf = 4096
+		got := newLogRig().serve(in, pl2, false)
+		r.Event("server_first_request_pairs", 1)
+		switch {
+		case got.Panic != "":
+			r.Violation(i, "panic:Server.ServeConn", fmt.Sprintf("ServeConn panicked on %s: %s", q(in), got.Panic), merge(base, map[string]any{"continuation": q(S)}))
+		case got.Loop:
+			r.Violation(i, "hang:Server.ServeConn", fmt.Sprintf("ServeConn keeps reading after EOF on %s", q(in)), merge(base, map[string]any{"continuation": q(S)}))
+		case first(got) != first(ref):
+			r.Violation(i, "continuation-changes-dispatch", fmt.Sprintf("Server.ServeConn: the first request %s is answered differently when followed by %s (%s):\n alone:    %s\n followed: %s", q(H), name, mon.Short(S, 40), first(ref), first(got)),
+				merge(base, map[string]any{"continuation": q(S), "alone": ref, "followed": got}))
+		}
+	}
 }
